@@ -59,11 +59,20 @@ func init() {
 	m["path/filepath.Abs"] = libAbs
 	m["path/filepath.Clean"] = libClean
 	m["strings.ReplaceAll"] = libReplaceAll
+	m["strings.Replace"] = libReplace
+	m["strings.TrimSpace"] = libTrimSpace
 	m["compress/zlib.NewWriter"] = libZlibNewWriter
 	m["(*compress/zlib.Writer).Write"] = libZlibWrite
 	m["(*compress/zlib.Writer).Close"] = libZlibClose
 	m["path/filepath.ToSlash"] = libToSlash
 	m["(*github.com/spf13/cobra.Command).Flags"] = libNonNil
+	m["(*strings.Builder).WriteString"] = libBuilderWrite
+	m["(*strings.Builder).Write"] = libBuilderWrite
+	m["(*strings.Builder).WriteByte"] = libBuilderWriteByte
+	m["(*strings.Builder).String"] = libBuilderString
+	m["(*strings.Builder).Len"] = libBuilderLen
+	m["(*strings.Builder).Reset"] = libBuilderReset
+	m["fmt.Fprintf"] = libFprintf
 	for k, v := range m {
 		libModels[k] = v
 	}
@@ -421,8 +430,8 @@ func libReaderRead(g *FuncGen, c *ast.CallExpr, callee *types.Func, st *State) [
 	nb := fmt.Sprintf("(bcat (bsub (rdContent %s) %s (+ %s %s)) (bsub %s %s (blen %s)))", r.T, pos, pos, n.T, buf.T, n.T, buf.T)
 	g.advance(st, r.T, n.T)
 	// the buffer variable now holds the bytes read
-	if id, ok := unparen(c.Args[0]).(*ast.Ident); ok {
-		g.assignTo(id, Val{nb, buf.Ty, "Bytes"}, st)
+	if id := bufferVar(c.Args[0]); id != nil {
+		g.assignTo(id, Val{nb, g.typeOf(id), "Bytes"}, st)
 	}
 	// a buffer that is not a variable (make(...) in place) cannot be looked at afterwards
 	return []Val{n, err}
@@ -442,10 +451,24 @@ func libReadFull(g *FuncGen, c *ast.CallExpr, callee *types.Func, st *State) []V
 	g.assume(st, fmt.Sprintf("(= (= %s 0) (= %s (blen %s)))", err.T, n.T, buf.T))
 	nb := fmt.Sprintf("(bcat (bsub (rdContent %s) %s (+ %s %s)) (bsub %s %s (blen %s)))", r.T, pos, pos, n.T, buf.T, n.T, buf.T)
 	g.advance(st, r.T, n.T)
-	if id, ok := unparen(c.Args[1]).(*ast.Ident); ok {
-		g.assignTo(id, Val{nb, buf.Ty, "Bytes"}, st)
+	if id := bufferVar(c.Args[1]); id != nil {
+		g.assignTo(id, Val{nb, g.typeOf(id), "Bytes"}, st)
 	}
 	return []Val{n, err}
+}
+
+// bufferVar: the variable a read fills: "buf", or "arr[:]" over a whole array variable
+func bufferVar(e ast.Expr) *ast.Ident {
+	e = unparen(e)
+	if id, ok := e.(*ast.Ident); ok {
+		return id
+	}
+	if sl, ok := e.(*ast.SliceExpr); ok && sl.Low == nil && sl.High == nil && sl.Max == nil {
+		if id, ok := unparen(sl.X).(*ast.Ident); ok {
+			return id
+		}
+	}
+	return nil
 }
 
 func libReadAll(g *FuncGen, c *ast.CallExpr, callee *types.Func, st *State) []Val {
@@ -538,6 +561,7 @@ func libScan(g *FuncGen, c *ast.CallExpr, callee *types.Func, st *State) []Val {
 	ok := fmt.Sprintf("(> (blen %s) 0)", cur)
 	newTok := fmt.Sprintf("(ite (contains %s %s) (splitHead %s %s) %s)", cur, nl, cur, nl, cur)
 	newRest := fmt.Sprintf("(ite (contains %s %s) (splitTail %s %s) bempty)", cur, nl, cur, nl)
+	g.assume(st, fmt.Sprintf("(scanStep %s)", cur))
 	g.ghostSet(st, "$sctok", fmt.Sprintf("(ite %s (store %s %s %s) %s)", ok, tok, s.T, newTok, tok))
 	g.ghostSet(st, "$screst", fmt.Sprintf("(ite %s (store %s %s %s) %s)", ok, rest, s.T, newRest, rest))
 	return []Val{boolVal(ok)}
@@ -728,4 +752,78 @@ func libZlibClose(g *FuncGen, c *ast.CallExpr, callee *types.Func, st *State) []
 	g.assume(st, fmt.Sprintf("(= %s 0)", res[0].T))
 	g.assume(st, fmt.Sprintf("(= (bufBytes (zwTarget %s)) (zlibEnc (select %s %s)))", w.T, zw, w.T))
 	return res
+}
+
+// ---------- strings.Builder: the text built so far is ghost state of the handle ("var sb strings.Builder" starts empty) ----------
+
+func builderAppend(g *FuncGen, st *State, h, text string) {
+	sb := g.ghostGet(st, "$sb")
+	g.ghostSet(st, "$sb", fmt.Sprintf("(store %s %s (bcat (select %s %s) %s))", sb, h, sb, h, text))
+}
+
+func libBuilderWrite(g *FuncGen, c *ast.CallExpr, callee *types.Func, st *State) []Val {
+	b := recvOf(g, c, st)
+	data := coerce(g.ev(c.Args[0], st), types.Typ[types.String])
+	builderAppend(g, st, b.T, data.T)
+	return []Val{{fmt.Sprintf("(blen %s)", data.T), types.Typ[types.Int], "Int"}, {"0", types.Universe.Lookup("error").Type(), "Int"}}
+}
+
+func libBuilderWriteByte(g *FuncGen, c *ast.CallExpr, callee *types.Func, st *State) []Val {
+	b := recvOf(g, c, st)
+	v := g.ev(c.Args[0], st)
+	builderAppend(g, st, b.T, fmt.Sprintf("(byte1 %s)", v.T))
+	return []Val{{"0", types.Universe.Lookup("error").Type(), "Int"}}
+}
+
+func libBuilderString(g *FuncGen, c *ast.CallExpr, callee *types.Func, st *State) []Val {
+	b := recvOf(g, c, st)
+	return []Val{{fmt.Sprintf("(select %s %s)", g.ghostGet(st, "$sb"), b.T), types.Typ[types.String], "Bytes"}}
+}
+
+func libBuilderLen(g *FuncGen, c *ast.CallExpr, callee *types.Func, st *State) []Val {
+	b := recvOf(g, c, st)
+	return []Val{{fmt.Sprintf("(blen (select %s %s))", g.ghostGet(st, "$sb"), b.T), types.Typ[types.Int], "Int"}}
+}
+
+func libBuilderReset(g *FuncGen, c *ast.CallExpr, callee *types.Func, st *State) []Val {
+	b := recvOf(g, c, st)
+	sb := g.ghostGet(st, "$sb")
+	g.ghostSet(st, "$sb", fmt.Sprintf("(store %s %s bempty)", sb, b.T))
+	return nil
+}
+
+// fmt.Fprintf(&sb, constant format, args...) into a strings.Builder appends what Sprintf would return; any other
+// writer is not modelled (results unconstrained)
+func libFprintf(g *FuncGen, c *ast.CallExpr, callee *types.Func, st *State) []Val {
+	wt := g.typeOf(c.Args[0])
+	if wt != nil && strings.HasSuffix(wt.String(), "strings.Builder") && len(c.Args) >= 2 {
+		if tv, ok := g.info.Types[c.Args[1]]; ok && tv.Value != nil && tv.Value.Kind() == constant.String {
+			w := g.ev(c.Args[0], st)
+			text := libSprintf(g, &ast.CallExpr{Fun: c.Fun, Lparen: c.Lparen, Args: c.Args[1:], Rparen: c.Rparen}, callee, st)[0]
+			builderAppend(g, st, w.T, text.T)
+			return []Val{{fmt.Sprintf("(blen %s)", text.T), types.Typ[types.Int], "Int"}, {"0", types.Universe.Lookup("error").Type(), "Int"}}
+		}
+	}
+	for _, a := range c.Args {
+		g.evMulti(a, st)
+	}
+	return g.libResults(callee, st)
+}
+
+// strings.Replace(s, old, new, n) with a negative constant n is ReplaceAll; any other count is not modelled
+func libReplace(g *FuncGen, c *ast.CallExpr, callee *types.Func, st *State) []Val {
+	if tv, ok := g.info.Types[c.Args[3]]; ok && tv.Value != nil {
+		if n, exact := constant.Int64Val(tv.Value); exact && n < 0 {
+			return libReplaceAll(g, c, callee, st)
+		}
+	}
+	for _, a := range c.Args {
+		g.ev(a, st)
+	}
+	return g.libResults(callee, st)
+}
+
+func libTrimSpace(g *FuncGen, c *ast.CallExpr, callee *types.Func, st *State) []Val {
+	s := g.ev(c.Args[0], st)
+	return []Val{{fmt.Sprintf("(trimSpace %s)", s.T), types.Typ[types.String], "Bytes"}}
 }
